@@ -30,6 +30,7 @@ import (
 	"strconv"
 	"strings"
 	"sync"
+	"sync/atomic"
 	"testing"
 	"time"
 	"unicode"
@@ -1066,6 +1067,12 @@ type memRWC struct {
 	eof    bool
 	out    bytes.Buffer
 	closed bool
+	// split > 1: a Writer that forwards the bytes of one Write call in that many pieces and promises
+	// nothing about concurrent calls (legal for an io.Writer: a chunking / framing / compressing
+	// adapter, a bufio.Writer); between two pieces it lets another Write call get into the stream
+	split  int
+	active atomic.Int32 // Write calls under way
+	pieces atomic.Int32 // pieces put down so far
 }
 
 func newMemRWC() *memRWC {
@@ -1088,8 +1095,87 @@ func (m *memRWC) Read(p []byte) (int, error) {
 
 func (m *memRWC) Write(p []byte) (int, error) {
 	m.mu.Lock()
-	defer m.mu.Unlock()
-	return m.out.Write(p)
+	k := m.split
+	if k <= 1 {
+		defer m.mu.Unlock()
+		return m.out.Write(p)
+	}
+	m.mu.Unlock()
+	m.active.Add(1)
+	defer m.active.Add(-1)
+	n := len(p)
+	for i := 0; i < k; i++ {
+		m.mu.Lock()
+		m.out.Write(p[n*i/k : n*(i+1)/k])
+		m.mu.Unlock()
+		seen := m.pieces.Add(1)
+		if i+1 < k {
+			// park until another Write call has put a piece down, at most 2 ms (a caller that
+			// serialises its writers never lets a second call in: the time just passes)
+			for dl := time.Now().Add(2 * time.Millisecond); time.Now().Before(dl); {
+				if m.pieces.Load() != seen {
+					break
+				}
+				time.Sleep(20 * time.Microsecond)
+			}
+		}
+	}
+	return n, nil
+}
+
+// concurrentWrites: every message is written by a goroutine of its own, all released together, to a
+// connection whose stream forwards each Write in k pieces. Observed: the LINES of the stream afterwards,
+// sorted (which writer comes first is the scheduler's choice): each as the JSON value it is, or `!<hex>`.
+func (w *ioWorld) concurrentWrites(k int, msgs []jsonrpc.Message) string {
+	w.rwc.takeOut()
+	w.rwc.mu.Lock()
+	w.rwc.split = k
+	w.rwc.mu.Unlock()
+	var wg sync.WaitGroup
+	start := make(chan struct{})
+	res := make([]string, len(msgs))
+	for i, m := range msgs {
+		wg.Add(1)
+		go func() {
+			defer wg.Done()
+			defer func() {
+				if r := recover(); r != nil {
+					res[i] = "panic"
+				}
+			}()
+			<-start
+			if err := w.conn.Write(context.Background(), m); err != nil {
+				res[i] = "write-error"
+			}
+		}()
+	}
+	close(start)
+	wg.Wait()
+	w.rwc.mu.Lock()
+	w.rwc.split = 0
+	w.rwc.mu.Unlock()
+	for _, r := range res {
+		if r != "" {
+			return r
+		}
+	}
+	b := w.rwc.takeOut()
+	var lines []string
+	for len(b) > 0 {
+		var l []byte
+		if i := bytes.IndexByte(b, '\n'); i >= 0 {
+			l, b = b[:i], b[i+1:]
+		} else {
+			l, b = b, nil
+		}
+		if v, err := parseJSON(l); err == nil && len(bytes.TrimSpace(l)) == len(l) && !bytes.ContainsAny(l, "\r") {
+			lines = append(lines, v.tok())
+		} else {
+			lines = append(lines, "!"+hx(l))
+		}
+	}
+	sort.Strings(lines)
+	return strings.TrimSpace(fmt.Sprintf("cw %d %s", len(lines), strings.Join(lines, " ")))
 }
 
 func (m *memRWC) Close() error {
@@ -1602,6 +1688,20 @@ func (w *wireWorld) apply(op string) (obs string) {
 			return fmt.Sprintf("err %s q%d", readErrTok(err), len(c.queue))
 		}
 		return fmt.Sprintf("msg %s q%d", msgTok(msg), len(c.queue))
+	case "io.cw":
+		k, _ := strconv.Atoi(p.next())
+		var msgs []jsonrpc.Message
+		for !p.done() {
+			m, ok := p.message()
+			if !ok {
+				return "bad-op"
+			}
+			msgs = append(msgs, m)
+		}
+		if w.io.conn == nil || k < 1 || len(msgs) == 0 {
+			return "bad-op"
+		}
+		return guarded(20*time.Second, func() string { return w.io.concurrentWrites(k, msgs) })
 	case "io.write":
 		m, ok := p.message()
 		if !ok || w.io.conn == nil {
@@ -2041,6 +2141,9 @@ func (g *ioGen) run(step stepper) {
 		if r.Intn(8) == 0 {
 			choices = append(choices, "other")
 		}
+		if outCap == 0 && r.Intn(6) == 0 {
+			choices = append(choices, "concurrent")
+		}
 		if len(choices) == 0 {
 			if !eof {
 				choices = append(choices, "eof")
@@ -2080,6 +2183,34 @@ func (g *ioGen) run(step stepper) {
 			step("io.eof")
 			eof = true
 			canRead = true
+		case "concurrent":
+			// 2-4 goroutines write at the same time (the responses of concurrently handled calls, a
+			// notification, a call of our own) to a stream that takes each Write in 2-3 pieces
+			var ms []string
+			tags := []string{"write:concurrent"}
+			for i, n := 0, 2+r.Intn(3); i < n; i++ {
+				switch c := r.Intn(6); {
+				case c < 2 && len(g.pending) > 0:
+					j := r.Intn(len(g.pending))
+					id := g.pending[j]
+					g.pending = append(g.pending[:j], g.pending[j+1:]...)
+					ms = append(ms, "resp "+id+" o{ 74657874 s"+hxs(strings.Repeat("payload-", 1+r.Intn(40)))+" } -")
+					tags = append(tags, "cw:answer")
+				case c < 4:
+					g.nextID++
+					ms = append(ms, fmt.Sprintf("req - s6e6f74696679 o{ 736571 i%d }", g.nextID))
+					tags = append(tags, "cw:notification")
+				case c < 5:
+					g.nextID++
+					ms = append(ms, fmt.Sprintf("req i%d s70696e67 o{ }", 2000+g.nextID))
+					tags = append(tags, "cw:call")
+				default:
+					g.nextID++
+					ms = append(ms, fmt.Sprintf("resp i%d z -", 8000+g.nextID))
+					tags = append(tags, "cw:unrelated-response")
+				}
+			}
+			step(fmt.Sprintf("io.cw %d %s", 2+r.Intn(2), strings.Join(ms, " ")), tags...)
 		case "other":
 			switch r.Intn(3) {
 			case 0:
@@ -2220,6 +2351,13 @@ func TestVerifWireMcp(t *testing.T) {
 					step = newCase(fmt.Sprintf("pages-%s-%d-%d", strings.ReplaceAll(m, "/", "."), ps, n))
 					(&pgGen{r: r, step: step}).sweep(m, ps, n)
 				}
+			}
+		}
+		// a registry listed whole (the client's roots) after every kind of add / remove history
+		for _, n := range []int{0, 1, 2, 3} {
+			for _, first := range []bool{true, false} {
+				step = newCase(fmt.Sprintf("histories-roots-%d-%v", n, first))
+				(&pgGen{r: r, step: step}).histories("roots/list", n, first)
 			}
 		}
 		// frames that carry no message, through every reader of peer data, in every layout
